@@ -55,6 +55,10 @@ func trialOpen(key []byte, link bool, data []byte) bool {
 
 func run(e *core.Env) {
 	tp := e.Tape
+	if tp.Chance(1, 8) {
+		runStrayThenRekeyThenWrap(e)
+		return
+	}
 	e.StartClock()
 	mk := func(name string, i int) *node.Node {
 		id := ident.Get(ident.Routable, i)
